@@ -409,6 +409,99 @@ def validates_first(index: RepoIndex, f: Func, dp: str) -> Tuple[bool, str]:
     return True, 'validate first'
 
 
+def factory_rules(index: RepoIndex, rep, rule: str) -> None:
+    """the six `factory(name, **kwargs)` functions are siblings with the documented pipeline
+    (also registered as C12.R4: a reward / termination component obtained by name receives
+    exactly the parameters it was configured with)"""
+    facts = {r: index.func(ROLE_FILE[r], 'factory') for r in N_PROTOCOL}
+    norm = {}
+    for r, f in facts.items():
+        norm[r] = factory_denotation(f, {f'{r}_function_registry': 'REGISTRY'})
+    base = norm['reset']
+    for r, f in sorted(facts.items()):
+        diff = [k for k in base if norm[r][k] != base[k]]
+        rep.check(not diff, rule, ROLE_FILE[r], 'factory', f.node.lineno,
+                  f'{r} factory', f'the {r} factory differs from its five siblings beyond the '
+                  f'registry and the error text (in {diff})', f'{r} factory sibling-equal')
+    f = facts['reset']
+    w = walk_function(f.node)
+    order = []
+    for e in w.events:
+        if e.kind == 'call':
+            fs = src(e.node.func)
+            if fs == 'functools.partial':
+                fs = 'partial'
+            if fs in ('import_if_custom', 'checkraise_kwargs', 'select_kwargs', 'partial',
+                      'inspect.signature'):
+                # inspect.signature is pure: reading it again changes nothing
+                if not (fs == 'inspect.signature' and order and order[-1] == fs):
+                    order.append(fs)
+        if e.kind == 'load' and src(e.node.value).endswith('_function_registry'):
+            order.append('lookup')
+    want = ['import_if_custom', 'lookup', 'inspect.signature', 'checkraise_kwargs',
+            'select_kwargs', 'partial']
+    if 'inspect.signature' not in order:
+        from ..pinned_names import METHODS
+        new_calls = sorted({e.node.func.attr for e in w.events if e.kind == 'call'
+                            and isinstance(e.node.func, ast.Attribute)
+                            and src(e.node.func.value).endswith('_function_registry')
+                            and e.node.func.attr not in METHODS})
+        if new_calls:
+            # the required / optional split moved into a registry method the pinned tree did
+            # not have (possibly memoised): a different mechanism, not a verdict
+            raise AnalysisError(f'factory: parameter names come from the new registry '
+                                f'method(s) {new_calls} (outside the grammar of C17.R4)')
+    rep.check(order == want, rule, ROLE_FILE['reset'], 'factory', f.node.lineno,
+              ' -> '.join(order), f'factory pipeline is {order}, documented {want}',
+              'factory pipeline order')
+    raises = [e for e in w.events if e.kind == 'raise']
+    ok = any('KeyError' in show(e.guard) and e.value is not None
+             and src(e.value).startswith('ValueError(') for e in raises)
+    rep.check(ok, rule, ROLE_FILE['reset'], 'factory', f.node.lineno,
+              '; '.join(src(e.stmt)[:60] for e in raises),
+              'an unknown component name is not turned into ValueError', 'KeyError -> ValueError')
+    FN = base['lookups'][0] if base['lookups'] else 'function'
+    params_e = f'REGISTRY.get_nonprotocol_parameters(inspect.signature({FN}))'
+    REQ = f'[_v0.name for _v0 in {params_e} if _v0.default is inspect.Parameter.empty]'
+    OPT = f'[_v1.name for _v1 in {params_e} if _v1.default is not inspect.Parameter.empty]'
+    ok = base['check'] == f'checkraise_kwargs(kwargs, {REQ})' and \
+        base['ret'] == [f'partial({FN}, **select_kwargs(kwargs, {REQ} + {OPT}))']
+    rep.check(ok, rule, ROLE_FILE['reset'], 'factory', f.node.lineno,
+              f'{base["check"]}; {base["ret"]}'[:300],
+              'the required/optional split, the required-key check, the key selection or the '
+              'partial application deviates from the documented factory', 'factory steps')
+    ck = index.func(FUNCS, 'checkraise_kwargs')
+    w = walk_function(ck.node)
+    kp, rp = [a.arg for a in ck.node.args.args[:2]]
+    rz = [e for e in w.events if e.kind == 'raise']
+    ok = len(rz) == 1 and rz[0].loops and src(rz[0].loops[-1][1]) == rp and \
+        show(strip_iter(rz[0].guard)) == f'not ({src(rz[0].loops[-1][0])} in {kp})' and \
+        src(rz[0].value).startswith('ValueError(')
+    rep.check(ok, rule, FUNCS, 'checkraise_kwargs', ck.node.lineno,
+              '; '.join(src(e.stmt)[:80] for e in rz),
+              'checkraise_kwargs does not raise ValueError for every missing required key',
+              'missing key -> ValueError')
+    sk = index.func(FUNCS, 'select_kwargs')
+    rep.check(select_kwargs_ok(sk), rule,
+              FUNCS, 'select_kwargs', sk.node.lineno, 'select_kwargs',
+              'select_kwargs does not keep exactly the accepted keys', 'select_kwargs')
+    for r in N_PROTOCOL:
+        regc = [c for c in index.module(ROLE_FILE[r]).classes.values()
+                if 'FunctionRegistry' in c.bases]
+        if len(regc) != 1:
+            raise AnalysisError(f'{ROLE_FILE[r]}: registry class not found')
+        gp = regc[0].methods.get('get_protocol_parameters')
+        t = src(gp.node) if gp else ''
+        n = N_PROTOCOL[r]
+        ok = "get_keyword_parameter(signature, 'rng')" in t and \
+            (n == 0 or f'get_positional_parameters(signature, {n})' in t)
+        rep.check(ok, rule, ROLE_FILE[r], f'{regc[0].name}.get_protocol_parameters',
+                  gp.node.lineno if gp else 1, f'{n} positional + rng',
+                  f'the {r} registry does not treat its first {n} positional parameters and '
+                  f'`rng` as protocol parameters', f'{r} protocol parameters')
+
+
+
 def run(index: RepoIndex, rep) -> None:
     rep.rule('C17.R1', 'gym ids point to packaged files identical to their yaml/ twins', floor=44)
     rep.rule('C17.R2', 'each shipped file has the top-level keys of the env schema, non-empty '
@@ -518,93 +611,7 @@ def run(index: RepoIndex, rep) -> None:
              f'(ignored by select_kwargs)')
 
     # ---------------------------------------------------------------- R4
-    facts = {r: index.func(ROLE_FILE[r], 'factory') for r in N_PROTOCOL}
-    norm = {}
-    for r, f in facts.items():
-        norm[r] = factory_denotation(f, {f'{r}_function_registry': 'REGISTRY'})
-    base = norm['reset']
-    for r, f in sorted(facts.items()):
-        diff = [k for k in base if norm[r][k] != base[k]]
-        rep.check(not diff, 'C17.R4', ROLE_FILE[r], 'factory', f.node.lineno,
-                  f'{r} factory', f'the {r} factory differs from its five siblings beyond the '
-                  f'registry and the error text (in {diff})', f'{r} factory sibling-equal')
-    f = facts['reset']
-    w = walk_function(f.node)
-    order = []
-    for e in w.events:
-        if e.kind == 'call':
-            fs = src(e.node.func)
-            if fs == 'functools.partial':
-                fs = 'partial'
-            if fs in ('import_if_custom', 'checkraise_kwargs', 'select_kwargs', 'partial',
-                      'inspect.signature'):
-                # inspect.signature is pure: reading it again changes nothing
-                if not (fs == 'inspect.signature' and order and order[-1] == fs):
-                    order.append(fs)
-        if e.kind == 'load' and src(e.node.value).endswith('_function_registry'):
-            order.append('lookup')
-    want = ['import_if_custom', 'lookup', 'inspect.signature', 'checkraise_kwargs',
-            'select_kwargs', 'partial']
-    if 'inspect.signature' not in order:
-        from ..pinned_names import METHODS
-        new_calls = sorted({e.node.func.attr for e in w.events if e.kind == 'call'
-                            and isinstance(e.node.func, ast.Attribute)
-                            and src(e.node.func.value).endswith('_function_registry')
-                            and e.node.func.attr not in METHODS})
-        if new_calls:
-            # the required / optional split moved into a registry method the pinned tree did
-            # not have (possibly memoised): a different mechanism, not a verdict
-            raise AnalysisError(f'factory: parameter names come from the new registry '
-                                f'method(s) {new_calls} (outside the grammar of C17.R4)')
-    rep.check(order == want, 'C17.R4', ROLE_FILE['reset'], 'factory', f.node.lineno,
-              ' -> '.join(order), f'factory pipeline is {order}, documented {want}',
-              'factory pipeline order')
-    raises = [e for e in w.events if e.kind == 'raise']
-    ok = any('KeyError' in show(e.guard) and e.value is not None
-             and src(e.value).startswith('ValueError(') for e in raises)
-    rep.check(ok, 'C17.R4', ROLE_FILE['reset'], 'factory', f.node.lineno,
-              '; '.join(src(e.stmt)[:60] for e in raises),
-              'an unknown component name is not turned into ValueError', 'KeyError -> ValueError')
-    FN = base['lookups'][0] if base['lookups'] else 'function'
-    params_e = f'REGISTRY.get_nonprotocol_parameters(inspect.signature({FN}))'
-    REQ = f'[_v0.name for _v0 in {params_e} if _v0.default is inspect.Parameter.empty]'
-    OPT = f'[_v1.name for _v1 in {params_e} if _v1.default is not inspect.Parameter.empty]'
-    ok = base['check'] == f'checkraise_kwargs(kwargs, {REQ})' and \
-        base['ret'] == [f'partial({FN}, **select_kwargs(kwargs, {REQ} + {OPT}))']
-    rep.check(ok, 'C17.R4', ROLE_FILE['reset'], 'factory', f.node.lineno,
-              f'{base["check"]}; {base["ret"]}'[:300],
-              'the required/optional split, the required-key check, the key selection or the '
-              'partial application deviates from the documented factory', 'factory steps')
-    ck = index.func(FUNCS, 'checkraise_kwargs')
-    w = walk_function(ck.node)
-    kp, rp = [a.arg for a in ck.node.args.args[:2]]
-    rz = [e for e in w.events if e.kind == 'raise']
-    ok = len(rz) == 1 and rz[0].loops and src(rz[0].loops[-1][1]) == rp and \
-        show(strip_iter(rz[0].guard)) == f'not ({src(rz[0].loops[-1][0])} in {kp})' and \
-        src(rz[0].value).startswith('ValueError(')
-    rep.check(ok, 'C17.R4', FUNCS, 'checkraise_kwargs', ck.node.lineno,
-              '; '.join(src(e.stmt)[:80] for e in rz),
-              'checkraise_kwargs does not raise ValueError for every missing required key',
-              'missing key -> ValueError')
-    sk = index.func(FUNCS, 'select_kwargs')
-    rep.check(select_kwargs_ok(sk), 'C17.R4',
-              FUNCS, 'select_kwargs', sk.node.lineno, 'select_kwargs',
-              'select_kwargs does not keep exactly the accepted keys', 'select_kwargs')
-    for r in N_PROTOCOL:
-        regc = [c for c in index.module(ROLE_FILE[r]).classes.values()
-                if 'FunctionRegistry' in c.bases]
-        if len(regc) != 1:
-            raise AnalysisError(f'{ROLE_FILE[r]}: registry class not found')
-        gp = regc[0].methods.get('get_protocol_parameters')
-        t = src(gp.node) if gp else ''
-        n = N_PROTOCOL[r]
-        ok = "get_keyword_parameter(signature, 'rng')" in t and \
-            (n == 0 or f'get_positional_parameters(signature, {n})' in t)
-        rep.check(ok, 'C17.R4', ROLE_FILE[r], f'{regc[0].name}.get_protocol_parameters',
-                  gp.node.lineno if gp else 1, f'{n} positional + rng',
-                  f'the {r} registry does not treat its first {n} positional parameters and '
-                  f'`rng` as protocol parameters', f'{r} protocol parameters')
-
+    factory_rules(index, rep, 'C17.R4')
     # ---------------------------------------------------------------- R5
     eff = Effects(index)
     fm = index.module(FACTORY)
